@@ -3,7 +3,7 @@
    Standing hypothesis, carried by the types: a response Message has a [bytes] payload (it serialises). A [str] payload is
    the open finding C09:unencodable-response (known_findings.d/C09.json), exercised by an oracle-only stream of the check. *)
 From Coq Require Import String Ascii.
-From Verif Require Import Lib.Py Lib.Tactics Model.C09 Model.C09Stack Proofs.C09 Proofs.C09Stack Proofs.C09Wire.
+From Verif Require Import Lib.Py Lib.Tactics Model.C09 Model.C09Stack Proofs.C09 Proofs.C09Stack Proofs.C09Wire Proofs.C09R6.
 Open Scope Z_scope.
 
 (* ================================================================ 1. the decision table of final responses *)
@@ -231,6 +231,39 @@ Theorem C09_wire_at_most_one_with_token : forall srv mid0 evs r m,
   (length ws <= 1)%nat /\ forall w, In w ws -> carries r m w.
 Proof. exact wire_at_most_one. Qed.
 Print Assumptions C09_wire_at_most_one_with_token.
+(* EXACTLY one on the wire, over whole runs from the initial state: a NON request — or a CON request whose handler answers at
+   once, i.e. while its ACK is still pending — that arrives and whose handler gets to finish (no reuse of its token, no second
+   completion in between: [mid_ok]) is answered by exactly one non-empty datagram, with its token, to its remote, carrying its
+   own final message, unless No-Response applies.  (Separate CON responses additionally need the client's ACKs: C14.) *)
+Theorem C09_wire_exactly_one : forall srv mid0 pre r mid post m,
+  NoDup (req_ids (pre ++ Req r :: mid ++ Done (r_id r) :: post)) ->
+  finalising srv r -> final_message srv r = Some m ->
+  r_con r = false \/ r_slow r && reaches_handler srv r = false ->
+  is_response (code_of m) = true -> suppressed (tm_fill r m) = false ->
+  Forall (mid_ok (r_id r) r) mid ->
+  exists w, answers (r_id r) (wires (snd (run srv (init_state mid0) (pre ++ Req r :: mid ++ Done (r_id r) :: post)))) = [w] /\ carries r m w.
+Proof. exact wire_exactly_one_non. Qed.
+Print Assumptions C09_wire_exactly_one.
+(* its side conditions are derivable: final messages of plain renderings have response codes (given that custom error
+   renderers hand over response codes; the library's own classes do), and nothing is suppressed without a No-Response option *)
+Theorem C09_final_message_is_response : forall s r methods m, handled s r methods -> final_message (Some s) r = Some m ->
+  (forall m', r_outcome r = Raise_ (ERenderable (TMReturn (VMsg m'))) -> is_response (code_of m') = true) ->
+  is_response (code_of m) = true.
+Proof. exact final_message_is_response. Qed.
+Print Assumptions C09_final_message_is_response.
+Theorem C09_cre_code_is_response : forall c, is_response (cre_code c) = true.
+Proof. exact cre_code_is_response. Qed.
+Print Assumptions C09_cre_code_is_response.
+Theorem C09_not_suppressed_without_option : forall r m, m_nr m = None -> r_nr r = None -> suppressed (tm_fill r m) = false.
+Proof. exact not_suppressed_without_option. Qed.
+Print Assumptions C09_not_suppressed_without_option.
+(* the model's silent branch for `AssertionError: backlogs/active_exchange relation violated` in _continue_backlog is
+   unreachable: in every state of every run, an ACK that matches an active exchange finds the remote's backlog entry *)
+Theorem C09_backlog_assertion_unreachable : forall srv mid0 evs remote a, NoDup (req_ids evs) ->
+  let s := fst (run srv (init_state mid0) evs) in
+  remove_first_active remote (s_active s) = Some a -> find_backlog remote (s_backlog s) <> None.
+Proof. exact backlog_assertion_unreachable. Qed.
+Print Assumptions C09_backlog_assertion_unreachable.
 (* isolation on the wire: two arbitrary runs that both contain request r answer it with the same code, token, payload,
    options and destination — nothing the neighbours do (their outcomes, failures, the shared NSTART backlog, message ids,
    pending ACKs) shows in the content of r's answer; only whether a CON answer has left the backlog depends on the ACKs *)
@@ -340,4 +373,22 @@ Proof.
   split; [split; [vm_compute; repeat constructor; cbn; intuition|vm_compute; repeat constructor]|].
   split; [split; [vm_compute; repeat constructor; cbn; intuition|vm_compute; intros i [<-|[]] [H|[]]; discriminate]|].
   split; [vm_compute; reflexivity|]. split; vm_compute; reflexivity.
+Qed.
+(* C09_wire_exactly_one on a concurrent scenario: a NON request failing in the middle of two CON neighbours, and a CON request answered at once *)
+Example C09_wire_exactly_one_example :
+  let n := {| r_id := 1; r_remote := 0; r_token := [2]; r_mid := 101; r_con := false; r_code := GET; r_path := [1]; r_nr := None; r_obs := None;
+              r_slow := true; r_outcome := Raise_ EOther |} in
+  let f := {| r_id := 3; r_remote := 0; r_token := [4]; r_mid := 103; r_con := true; r_code := GET; r_path := [9]; r_nr := None; r_obs := None;
+              r_slow := true; r_outcome := Return VNone |} in
+  let a := ex_req 0 1 (Raise_ EOther) in
+  let pre := [Req a; Tick 100000] in let mid := [Done 0; Req f; Tick 50000] in let post := [AckFrom 0; Done 3] in
+  NoDup (req_ids (pre ++ Req n :: mid ++ Done 1 :: post)) /\ Forall (mid_ok 1 n) mid /\
+  finalising (Some ex_site) n /\ final_message (Some ex_site) n = Some bare_500 /\ suppressed (tm_fill n bare_500) = false /\
+  map (fun w => (w_type w, w_code w, w_token w)) (answers 1 (wires (snd (run (Some ex_site) (init_state 9) (pre ++ Req n :: mid ++ Done 1 :: post))))) = [(T_NON, 160, [2])] /\
+  r_slow f && reaches_handler (Some ex_site) f = false /\
+  map (fun w => (w_type w, w_code w, w_token w)) (answers 3 (wires (snd (run (Some ex_site) (init_state 9) (pre ++ Req n :: mid ++ Done 1 :: post))))) = [(T_ACK, 132, [4])].
+Proof.
+  cbv zeta. split; [vm_compute; repeat constructor; cbn; intuition discriminate|].
+  split; [repeat constructor; cbn; try reflexivity; discriminate|].
+  split; [exact I|]. repeat split; vm_compute; reflexivity.
 Qed.
